@@ -339,7 +339,9 @@ static int m_ctx_loop_events(m_ctx_t *c, int max_events) {
 
 static int ctx_destroy_mods(void *data, const char *key, void *value) {
     m_mod_t *m = (m_mod_t *)value;
-    return mod_deregister(&m, false);
+    mod_deregister(&m, false);
+    /* Never stop the iteration: all modules must be deregistered */
+    return 0;
 }
 
 static ev_src_t *process_tick(ev_src_t *this, m_ctx_t *c, int idx, evt_priv_t *evt) {
@@ -424,10 +426,19 @@ _public_ int m_ctx_deregister(void) {
     M_CTX_ASSERT();
     M_PARAM_ASSERT(c->state == M_CTX_IDLE);
 
+    /*
+     * Deregister all modules while this thread still owns the context
+     * (mod_deregister() checks it); M_CTX_ZOMBIE prevents last module's
+     * deregistration from re-entering here, and the ctx from being looped on.
+     */
+    c->state = M_CTX_ZOMBIE;
+    m_iterate(c->modules, ctx_destroy_mods, NULL);
+
     int ret = pthread_setspecific(key, NULL);
     if (ret == 0) {
-        m_iterate(c->modules, ctx_destroy_mods, NULL);
         m_mem_unref(c);
+    } else {
+        c->state = M_CTX_IDLE;
     }
     return ret;
 }
@@ -460,6 +471,7 @@ _public_ int m_ctx_fd(void) {
 
 _public_ int m_ctx_dispatch(void) {
     M_CTX_ASSERT();
+    M_RET_ASSERT(c->state != M_CTX_ZOMBIE, -EPERM);
 
     if (c->state == M_CTX_IDLE) {
         /* Ok, start now */
